@@ -306,6 +306,9 @@ pub fn pad<T: std::fmt::Display + CenterRightNumbers>(
     alignment: Align,
     precision: Option<usize>,
 ) -> String {
+    // (callers add to the parsed width, e.g. for combining characters: std::fmt panics above
+    // u16::MAX)
+    let width = width.min(u16::MAX as usize);
     let space = s.center_right_space(alignment, width);
     let mut result = match precision {
         None => match alignment {
